@@ -16,6 +16,7 @@ EXPLANATION = (
     "of the parser context left behind by parsing its own children (that is the token after the node); (GUARD-LOCATION) a "
     "syntax error raised because of what a parsed construct is, is not located at the context its sub-parser left behind; "
     "(NAME-SPAN) a resolution error that quotes the name of an identifier node is located at that identifier's span."
+    " (PARSE-ERROR-DROPPED) a speculative sub-parse whose errors are discarded and replaced by whatever fails next (two known findings); (NO-STD prelude) collisions with the prelude's imports are located in the prelude (known finding)."
 )
 UNDECIDED = "that each error's span is the *most helpful* one (which child's span is chosen is a matter of taste); column exactness of rendered underlines."
 
